@@ -199,62 +199,96 @@ inductive SysReachable (cfgs : List Cfg) : Sys → Prop
 A call of the public `transform_and_write_value` first evaluates the port's write transform — which suspends the
 caller for a number of loop iterations that depends on the value (function arguments are gathered, `IF` is lazy) — and
 only then queues the value (`submit`). Repaired code (fixes/C14-submit-order-lock.diff, `fair = true`): the transform
-and the enqueue happen inside `async with self._submit_lock`, an asyncio.Lock hands over in FIFO order, so the callers
-leave the stage in call order (`pass`). Code before that fix (`fair = false`): any caller whose evaluation happens to
-finish first is queued first (`jump i`). A caller whose transform cannot be evaluated leaves without queueing
-(`pass false`). -/
+and the enqueue happen inside `async with self._submit_lock` — taken by EVERY call, whether or not a transform is set —,
+an asyncio.Lock hands over in FIFO order, so the callers leave the stage in call order (`pass`). Code before that fix
+(`fair = false`): any caller whose evaluation happens to finish first is queued first (`jump i`). A caller whose
+transform cannot be evaluated leaves without queueing (`pass false`).
+
+The `transform_write` attribute can be set, changed and cleared (`setTr`, `attr_set_transform_write`) at any moment,
+also between and during submissions. The code reads it (`if self._transform_write: … self._transform_write.eval(…)`)
+in the atomic stretch in which the caller gets the submit lock: at the call itself when nobody holds or waits for the
+lock (`enter` on an empty stage), otherwise when the caller, woken by the release of its predecessor, runs again
+(`acquire`). What is evaluated — and queued — is that transform applied to the submitted value; with no transform
+(`0`) the value is queued as it is (`applied`). Transforms are numbered; `xf k v` is the value of transform `k` on `v`
+(a parameter: every theorem holds for every `xf`). -/
 
 structure Call where
   id  : Nat
-  val : Int          -- the value that will be queued (after the transform)
+  val : Int          -- the value submitted (before the write transform)
+  tr  : Nat := 0     -- `transform_write` at the moment of the call (what the code before the fix evaluated)
   deriving DecidableEq, Repr
+
+/-- A call that has left the stage: the transform it evaluated and whether its value was queued. -/
+structure Passed where
+  call : Call
+  tr   : Nat
+  ok   : Bool
+  deriving DecidableEq, Repr
+
+/-- `if self._transform_write: value = transform(value)`: no transform (0) leaves the value as submitted. -/
+def applied (xf : Nat → Int → Int) (k : Nat) (v : Int) : Int := if k = 0 then v else xf k v
+
+/-- The value a call that left the stage has queued (if `ok`). -/
+def Passed.queuedVal (xf : Nat → Int → Int) (p : Passed) : Int := applied xf p.tr p.call.val
 
 structure TState where
   stage   : List Call := []             -- callers holding or waiting for the submit lock, in call order
+  acq     : Option Nat := none          -- the head of the stage holds the lock and evaluates this transform
+                                        -- (`none`: the stage is empty, or its head was handed the lock but has not run yet)
+  tr      : Nat := 0                    -- the port's `transform_write` attribute (0 = not set)
   port    : State := {}
   nextId  : Nat := 0
   entered : List Call := []             -- ghost: every call, in call order
-  passed  : List (Call × Bool) := []    -- ghost: calls that left the stage, in that order, with "value was queued"
+  passed  : List Passed := []           -- ghost: calls that left the stage, in that order
   deriving Repr
 
 inductive TAction
   | enter (v : Int)
+  | acquire
   | pass (ok : Bool)
   | jump (i : Nat)
+  | setTr (k : Nat)
   | port (a : Action)
   deriving DecidableEq, Repr
 
-def tstep (fair : Bool) (c : Cfg) (t : TState) : TAction → Option TState
+def tstep (fair : Bool) (xf : Nat → Int → Int) (c : Cfg) (t : TState) : TAction → Option TState
   | .enter v =>
-    let k : Call := ⟨t.nextId, v⟩
-    some { t with stage := t.stage ++ [k], nextId := t.nextId + 1, entered := t.entered ++ [k] }
+    let k : Call := ⟨t.nextId, v, t.tr⟩
+    some { t with stage := t.stage ++ [k], nextId := t.nextId + 1, entered := t.entered ++ [k],
+                  acq := if t.stage.isEmpty then some t.tr else t.acq }
+  | .acquire =>
+    match t.stage, t.acq with
+    | _ :: _, none => some { t with acq := some t.tr }
+    | _, _ => none
   | .pass ok =>
-    match t.stage with
-    | [] => none
-    | k :: rest =>
+    match t.stage, t.acq with
+    | k :: rest, some tk =>
       if ok then
-        (step c t.port (.submit k.val)).map fun p => { t with stage := rest, port := p, passed := t.passed ++ [(k, true)] }
-      else some { t with stage := rest, passed := t.passed ++ [(k, false)] }
+        (step c t.port (.submit (applied xf tk k.val))).map fun p =>
+          { t with stage := rest, acq := none, port := p, passed := t.passed ++ [⟨k, tk, true⟩] }
+      else some { t with stage := rest, acq := none, passed := t.passed ++ [⟨k, tk, false⟩] }
+    | _, _ => none
   | .jump i =>
     if fair then none else
     match t.stage[i]? with
     | none => none
     | some k =>
-      (step c t.port (.submit k.val)).map fun p =>
-        { t with stage := t.stage.eraseIdx i, port := p, passed := t.passed ++ [(k, true)] }
+      (step c t.port (.submit (applied xf k.tr k.val))).map fun p =>
+        { t with stage := t.stage.eraseIdx i, acq := none, port := p, passed := t.passed ++ [⟨k, k.tr, true⟩] }
+  | .setTr k => some { t with tr := k }
   | .port a =>
     match a with
     | .submit _ => none                  -- values reach the queue only through the stage
     | a => (step c t.port a).map fun p => { t with port := p }
 
-def texec (fair : Bool) (c : Cfg) : TState → List TAction → Option TState
+def texec (fair : Bool) (xf : Nat → Int → Int) (c : Cfg) : TState → List TAction → Option TState
   | t, [] => some t
-  | t, a :: as => match tstep fair c t a with
-    | some t' => texec fair c t' as
+  | t, a :: as => match tstep fair xf c t a with
+    | some t' => texec fair xf c t' as
     | none => none
 
-inductive TReachable (fair : Bool) (c : Cfg) : TState → Prop
-  | init : TReachable fair c {}
-  | step {t t' : TState} (a : TAction) : TReachable fair c t → tstep fair c t a = some t' → TReachable fair c t'
+inductive TReachable (fair : Bool) (xf : Nat → Int → Int) (c : Cfg) : TState → Prop
+  | init : TReachable fair xf c {}
+  | step {t t' : TState} (a : TAction) : TReachable fair xf c t → tstep fair xf c t a = some t' → TReachable fair xf c t'
 
 end QtVerif.PortIO
